@@ -73,4 +73,50 @@ CHECKS = {
           'terminate with a recursion warning. Failures are attributed to a minimal failing sub-object.',
   'note': 'Bounded exploration (depth <= 3 quick / 4 thorough, <= 4 items per level). Third-party containers (NumPy etc.) are not generated.',
  },
+ 'C06': {
+  'technique': 'model-based property testing: generated hook histories executed in a forked pristine process against a declarative longest-prefix model',
+  'text': 'Hypothesis generates histories of beartype_all / beartype_package(s) / beartype_this_package calls and nested beartyping() blocks over a dotted '
+          'name alphabet with look-alike prefixes and ten configurations (six with skip lists, incl. ancestor/descendant pairs); each history runs in a forked '
+          'pristine process in lock step with a 30-line model (registered map, all-conf, skip set, block stack). After every step all 15 names are queried through '
+          'get_package_conf_or_none and the presence of the path hook is compared; conflicts must raise BeartypeClawHookException and leave everything unchanged.',
+  'note': 'Histories of <= 14 (quick) / 30 (thorough) steps; ~700 quick histories because fork throughput in this sandbox is ~40/s. The history is a Hypothesis-generated '
+          'operation list interpreted against the model (equivalent to a rule-based state machine whose rules have no data dependencies); it shrinks as one value.',
+ },
+ 'C08': {
+  'technique': 'property-based testing: generated generator / coroutine bodies and protocol-operation sequences, differential against the undecorated function',
+  'text': 'Bodies from a statement grammar (yield, x = yield, nested try/except/finally with yielding / returning / re-raising / swallowing handlers, return, raise, '
+          'loops, awaiting an awaitable that suspends once) are rendered as generator, async generator or coroutine with and without return annotation; the decorated and '
+          'undecorated functions are driven by the same next/send/throw/close (anext/asend/athrow/aclose) sequence with a loop-free stepper and must produce identical traces, '
+          'side-effect logs and inspect classification; violating coroutine returns must raise the return violation.',
+  'note': 'Sequences of <= 8 operations, bodies of depth <= 2; GC finalisation of un-closed async generators is not driven. Bodies that yield while handling GeneratorExit are excluded as the statement says.',
+ },
+ 'C09': {
+  'technique': 'property-based testing: metamorphic size sweep over instrumented containers, bound computed from the hint',
+  'text': 'For generated container hints and object shapes built from read-counting list/tuple/set/deque/dict subclasses and ABC-only containers, the same case is run at '
+          'sizes 1,2,3,10,1000,20000 (100000 thorough): item reads and repr() calls on the checked object must be identical at every size (per verdict), at most one read per '
+          'container level (two per mapping level) while deciding and twice that when a rejection is described, and non-collection iterables must never be iterated.',
+  'note': 'Size independence is established on the sweep, not for every size. Reads are counted through overridden __getitem__ / iterators / views of the spy classes; C-level reads of builtin containers that bypass them (e.g. inside repr) are invisible.',
+ },
+ 'C10': {
+  'technique': 'property-based testing: spy objects logging every method call, before/after snapshot invariant over the six entry points',
+  'text': 'Hints of the iterable/collection/mapping families (optionally wrapped) are checked against one-shot iterators, generators, non-collection iterables, '
+          'defaultdicts with a counting factory, ChainMaps and method-logging containers chosen independently of the hint; after each entry point no mutator may have run, '
+          'no iterator advanced, no default_factory call made, contents and identity unchanged, and every logged method must be in the read-only allow-list.',
+  'note': 'Bounded exploration; containers of 0-5 items. A ChainMap whose first map is a defaultdict is not generated (ChainMap.__getitem__ itself inserts there).',
+ },
+ 'C11': {
+  'technique': 'property-based testing / grammar fuzzing of hint-construction programs with a validity oracle on escaping exceptions, bucketed by (phase, class, innermost beartype frame)',
+  'text': 'Arbitrary objects are built as hints by generated programs (typing factories over junk leaves, wrong arity, special forms, deep nesting) and passed to @beartype '
+          '(decoration and call, parameter and return), is_bearable, die_if_unbearable, TypeHint and is_subhint (both sides); anything that escapes must be a public '
+          'BeartypeException of the right phase class and every warning a BeartypeWarning. User exceptions raised by wrapped bodies, Is[...] predicates and __instancecheck__ '
+          'hooks must come back as the identical object.',
+  'note': 'Hypothesis-driven (no atheris campaign: coverage feedback through exec-generated code gave no gradient in trials); failures raised by typing itself while building a hint are discarded.',
+ },
+ 'C13': {
+  'technique': 'property-based testing: generated class sources, differential between @beartype on the class and a hand-written per-member rewriter',
+  'text': 'Class sources (plain/class/static methods, read-only and read-write properties, unannotated, @no_type_check and pre-wrapped members, nested classes, inheritance, '
+          'dataclasses) are executed twice; one copy is decorated as a class, the other member by member by my own rewriter. Probe verdicts must agree call for call, and '
+          'identity of the class, descriptor kinds, __name__/__qualname__/__doc__/signature/__wrapped__, untouched inherited members, idempotence and the O0 / -O identities are asserted.',
+  'note': 'Bounded exploration (<= 5 members per class, 2 nesting levels). Idempotence is judged on the function objects inside descriptors (beartype rebuilds descriptor objects).',
+ },
 }
